@@ -3,8 +3,8 @@ package neutrino
 // C05 — a compact filter is returned only if it matches the committed
 // filter header.  The real GetCFilter, prepareCFiltersQuery and
 // cfiltersQuery.handleResponse run against slice-model header stores, the
-// real LRU filter cache, a map-model filter database behind the real
-// BatchWriter, and a stub work manager feeding a symbolic response stream.
+// real LRU filter cache, the real filter database (on the walletdb model)
+// behind the real BatchWriter, and a stub work manager feeding a symbolic response stream.
 
 import (
 	"errors"
@@ -21,27 +21,27 @@ import (
 	"github.com/lightninglabs/neutrino/query"
 )
 
+// vpFilterDB: the real filterdb.FilterStore on the walletdb model (which,
+// like bbolt, keeps a reference to a stored value until the transaction
+// commits), with a record of what was put.
 type vpFilterDB struct {
-	keys    []chainhash.Hash
-	filters []*gcs.Filter
-	puts    int
+	real *filterdb.FilterStore
+	keys []chainhash.Hash
+	puts int
 }
 
 func (d *vpFilterDB) PutFilters(fs ...*filterdb.FilterData) error {
 	for _, f := range fs {
 		d.puts++
 		d.keys = append(d.keys, *f.BlockHash)
-		d.filters = append(d.filters, f.Filter)
 	}
-	return nil
+	if len(fs) > 1 {
+		vpReach("several-filters-persisted-in-one-transaction")
+	}
+	return d.real.PutFilters(fs...)
 }
 func (d *vpFilterDB) FetchFilter(h *chainhash.Hash, t filterdb.FilterType) (*gcs.Filter, error) {
-	for i := len(d.keys) - 1; i >= 0; i-- {
-		if d.keys[i] == *h {
-			return d.filters[i], nil
-		}
-	}
-	return nil, filterdb.ErrFilterNotFound
+	return d.real.FetchFilter(h, t)
 }
 func (d *vpFilterDB) PurgeFilters(filterdb.FilterType) error { return nil }
 
@@ -141,7 +141,13 @@ func VerifH_C05_getCFilter() {
 		}
 	}
 
-	fdb := &vpFilterDB{}
+	gh := hdrs[0].BlockHash()
+	realDB, ferr := filterdb.New(vpNewDB(), chaincfg.Params{Net: wire.SimNet, GenesisBlock: &wire.MsgBlock{Header: hdrs[0]}, GenesisHash: &gh})
+	if ferr != nil {
+		vpAssert(false, "filter-database-created")
+		return
+	}
+	fdb := &vpFilterDB{real: realDB}
 	persist := vpRange("persist", 0, 1) == 1
 	s := &ChainService{
 		BlockHeaders:     bs,
@@ -187,6 +193,7 @@ func VerifH_C05_getCFilter() {
 	th := hdrs[target].BlockHash()
 	got, gerr := s.GetCFilter(th, wire.GCSFilterRegular, opts...)
 	if persist {
+		vpQuiesce()                // the queue hands everything over to the writer
 		s.filterBatchWriter.Stop() // flushes what was queued
 	}
 
